@@ -101,7 +101,8 @@ func init() {
 			if arg(a, 2) == "1" {
 				content = string(f.content)
 			}
-			items = append(items, "( "+hx(path.Clean(f.name))+" "+hx(content)+" "+hx(showData(f.content))+" )")
+			// the RAW tar entry name: cleaning it is the model's business (PATH.clean)
+			items = append(items, "( "+hx(f.name)+" "+hx(content)+" "+hx(showData(f.content))+" )")
 		}
 		return fmt.Sprintf("%s %s %s %s %s", showBool(istar), hx(ext), showBool(decok), showBool(untarok), showList(items))
 	}
